@@ -258,6 +258,12 @@ func (session *ClientCommandSession) runReadLoop() {
 				}
 				if isInterleaved {
 					session.observer.OnInterleavedPacket(packet, int(channel))
+				} else {
+					// 不是interleaved包，readInterleaved没有消费数据，需要按信令读走，否则会在这里死循环
+					if _, err := readHttpResponseMessage(r); err != nil {
+						loopErr = err
+						return
+					}
 				}
 			}
 		}
